@@ -98,7 +98,7 @@ def run_case(cs):
         par = rng.choice(dirs)
         tree[(par + "/" if par else "") + n] = b"ign" + rng.randbytes(2)
     d = cs.dir()
-    root = os.path.join(d, "R")
+    root = os.path.join(d, world.root_name(rng))
     world.write_tree(root, tree)
     os.makedirs(root, exist_ok=True)
     allpat = ignoreref.DEFAULTS + pats
